@@ -454,6 +454,9 @@ vfps::HDF5File::readPhaseSpace( std::string fname
 
     std::vector<hsize_t> ps_offset;
     std::vector<hsize_t> ps_ext;
+    if ((rank != 3 && rank != 4) || ps_dims[0] == 0) {
+        throw HDF5FileException("No usable phase space record.");
+    }
     use_step = (ps_dims[0]+use_step)%ps_dims[0];
     meshindex_t ps_size;
     uint32_t nBunches = 1U;
